@@ -1,7 +1,7 @@
 CONSTANTS
-  NReq = 28
-  NOrig = 11
-  MaxDial = 28
+  NReq = 32
+  NOrig = 13
+  MaxDial = 32
   MaxTick = 60
   AsBuilt = {}
   Caps = {TRUE, FALSE}
